@@ -1,6 +1,7 @@
 package common
 
 import (
+	"encoding/json"
 	"github.com/protolambda/ztyp/codec"
 	"github.com/protolambda/ztyp/tree"
 	. "github.com/protolambda/ztyp/view"
@@ -106,6 +107,13 @@ func (a *PendingConsolidation) HashTreeRoot(hFn tree.HashFn) Root {
 
 type PendingDeposits []PendingDeposit
 
+func (li PendingDeposits) MarshalJSON() ([]byte, error) {
+	if li == nil {
+		return []byte("[]"), nil // encode as empty list, not null
+	}
+	return json.Marshal([]PendingDeposit(li))
+}
+
 func PendingDepositsType(spec *Spec) ListTypeDef {
 	return ListType(PendingDepositType, uint64(spec.PENDING_DEPOSITS_LIMIT))
 }
@@ -144,6 +152,13 @@ func (li PendingDeposits) HashTreeRoot(spec *Spec, hFn tree.HashFn) Root {
 
 type PendingPartialWithdrawals []PendingPartialWithdrawal
 
+func (li PendingPartialWithdrawals) MarshalJSON() ([]byte, error) {
+	if li == nil {
+		return []byte("[]"), nil // encode as empty list, not null
+	}
+	return json.Marshal([]PendingPartialWithdrawal(li))
+}
+
 func PendingPartialWithdrawalsType(spec *Spec) ListTypeDef {
 	return ListType(PendingPartialWithdrawalType, uint64(spec.PENDING_PARTIAL_WITHDRAWALS_LIMIT))
 }
@@ -181,6 +196,13 @@ func (li PendingPartialWithdrawals) HashTreeRoot(spec *Spec, hFn tree.HashFn) Ro
 }
 
 type PendingConsolidations []PendingConsolidation
+
+func (li PendingConsolidations) MarshalJSON() ([]byte, error) {
+	if li == nil {
+		return []byte("[]"), nil // encode as empty list, not null
+	}
+	return json.Marshal([]PendingConsolidation(li))
+}
 
 func PendingConsolidationsType(spec *Spec) ListTypeDef {
 	return ListType(PendingConsolidationType, uint64(spec.PENDING_CONSOLIDATIONS_LIMIT))
